@@ -281,7 +281,42 @@ def is_subsequence(xs, ys):
     return all(any(x == y for y in it) for x in xs)
 
 
+STATS = {"unify_results": 0, "unify_law_bits": 0, "unify_law_bits_false": 0, "extend_added": 0,
+         "replace_identity_checked": 0, "nest_with_amp": 0, "append_ok": 0, "errors": 0}
+
+
+def extra_coverage(ctx, res):
+    return {"c24_stats": dict(STATS)}
+
+
 def judge(case, impl, asis, spec):
+    v = judge0(case, impl, asis, spec)
+    try:
+        op, law = fields(case)
+        d = parse_impl(op, impl) or {}
+        r = d.get("res")
+        if r in ("err", "panic"):
+            STATS["errors"] += 1
+        elif op == "unify" and r not in (None, "null"):
+            STATS["unify_results"] += 1
+            if law == "law":
+                bits = d["ra"] + d["rb"]
+                STATS["unify_law_bits"] += len(bits)
+                STATS["unify_law_bits_false"] += bits.count("false")
+        elif op == "extend" and r and d.get("p") and len(split_top(r)) > len(split_top(d["p"])):
+            STATS["extend_added"] += 1
+        elif op == "replace" and law == "ident":
+            STATS["replace_identity_checked"] += 1
+        elif op == "nest" and "&" in unhx(case.lines[0].split("\t")[5]).split("}", 1)[1]:
+            STATS["nest_with_amp"] += 1
+        elif op == "append" and r != "null":
+            STATS["append_ok"] += 1
+    except Exception:
+        pass
+    return v
+
+
+def judge0(case, impl, asis, spec):
     op, law = fields(case)
     d = parse_impl(op, impl)
     if d is None:
